@@ -13,8 +13,12 @@ from vlib import core, engine_corr
 from vlib.core import q, unq
 
 PROPERTY = "C03"
-LEAN_MODS = ["AtomicaProofs.Properties.C03Grid"]
+LEAN_MODS = ["AtomicaProofs.Properties.C03Grid", "AtomicaProofs.Properties.C03Conv"]
 THEOREMS = [
+    # conversion half: the engine computes exactly the documented rule (Spec.*)
+    "Atomica.C03.convert_rate", "Atomica.C03.convert_duration", "Atomica.C03.convert_number", "Atomica.C03.convert_number_empty",
+    "Atomica.C03.flow_source_number", "Atomica.C03.flow_is_stock_times_fraction", "Atomica.C03.flow_normalised",
+    "Atomica.C03.flow_probability", "Atomica.C03.flow_duration", "Atomica.C03.flow_number",
     "Atomica.C03.update_end_snapped",
     "Atomica.C03.update_start_dt",
     "Atomica.C03.update_end_first",
